@@ -18,7 +18,7 @@ What a batch makes the *next* stage do is part of the batch (`Item`): how many b
 its own future) and whether it is an error there. Quantifying over all items quantifies over all behaviours of the
 stages' callbacks and all result sets. Sends are rendezvous: a send is enabled only when the receiver is at its
 receive. Closing never blocks. Core-only. -/
-namespace Qryn.Read.Pipe
+namespace Qryn.ReadSide.Pipe
 
 /-- a batch together with what it causes downstream -/
 inductive Item where
@@ -131,4 +131,4 @@ structure Inv (S : Sys) : Prop where
   srcEmpty : S.srcClosed = true → S.src = []
   drains : ∀ i, i < S.n → (S.stg i).drains = true
 
-end Qryn.Read.Pipe
+end Qryn.ReadSide.Pipe
